@@ -54,6 +54,10 @@ def _new_handler(rng, prog, part, kind, name, safe):
     h = {"kind": kind, "name": name, "safe": safe, "args": _mk_args(rng, prog),
          "ret_err": rng.choice(["own", "own", "std"]),
          "hid": f"{part['id']}.{kind}.{name}", "part": part["id"]}
+    # the context type only has to convert from the entry point's tuple: a sudo handler may take MigrateCtx etc.
+    alt = {"sudo": "migrate", "migrate": "sudo", "exec": "instantiate", "instantiate": "exec"}.get(kind)
+    if alt and rng.random() < 0.12:
+        h["ctx_kind"] = alt
     if kind == "query":
         h["resp_ti"] = intern_type(prog, resp_type(rng))
         ident = RESP_IDENTS.get(prog["types"][h["resp_ti"]].rust)
